@@ -1,9 +1,11 @@
 package main
 
 import (
+	"fmt"
 	"go/ast"
 	"go/token"
 	"sort"
+	"strings"
 )
 
 func init() {
@@ -23,56 +25,128 @@ func (g *gen) htmlEntities() {
 	}
 	var ents []ent
 	found := false
-	if fd != nil {
-		ast.Inspect(fd.Body, func(n ast.Node) bool {
-			sw, ok := n.(*ast.SwitchStmt)
-			if !ok || found {
-				return true
-			}
-			found = true
-			for _, cc := range sw.Body.List {
-				c := cc.(*ast.CaseClause)
-				if c.List == nil { // default
-					if len(c.Body) != 1 {
-						g.fail("htmlEscapeString: default case is not a bare continue")
-					} else if bs, ok := c.Body[0].(*ast.BranchStmt); !ok || bs.Tok != token.CONTINUE {
-						g.fail("htmlEscapeString: default case is not a bare continue")
-					}
-					continue
+	perr := g.silent(func() {
+		if fd != nil {
+			ast.Inspect(fd.Body, func(n ast.Node) bool {
+				sw, ok := n.(*ast.SwitchStmt)
+				if !ok || found {
+					return true
 				}
-				// body: html = <ident>
-				var val string
-				okBody := false
-				if len(c.Body) == 1 {
-					if as, ok := c.Body[0].(*ast.AssignStmt); ok && len(as.Rhs) == 1 {
-						switch rhs := as.Rhs[0].(type) {
-						case *ast.Ident:
-							if init := g.varValue(rel, rhs.Name); init != nil {
-								val, okBody = bytesOf(init)
-							}
-						default:
-							val, okBody = bytesOf(rhs)
+				found = true
+				for _, cc := range sw.Body.List {
+					c := cc.(*ast.CaseClause)
+					if c.List == nil { // default
+						if len(c.Body) != 1 {
+							g.fail("htmlEscapeString: default case is not a bare continue")
+						} else if bs, ok := c.Body[0].(*ast.BranchStmt); !ok || bs.Tok != token.CONTINUE {
+							g.fail("htmlEscapeString: default case is not a bare continue")
 						}
-					}
-				}
-				if !okBody {
-					g.fail("htmlEscapeString: case body not of the form html = <bytes var>")
-					continue
-				}
-				for _, e := range c.List {
-					r, ok := charLit(e)
-					if !ok || r > 255 {
-						g.fail("htmlEscapeString: case label is not a byte literal")
 						continue
 					}
-					ents = append(ents, ent{int(r), val})
+					// body: html = <ident>
+					var val string
+					okBody := false
+					if len(c.Body) == 1 {
+						if as, ok := c.Body[0].(*ast.AssignStmt); ok && len(as.Rhs) == 1 {
+							switch rhs := as.Rhs[0].(type) {
+							case *ast.Ident:
+								if init := g.varValue(rel, rhs.Name); init != nil {
+									val, okBody = bytesOf(init)
+								}
+							default:
+								val, okBody = bytesOf(rhs)
+							}
+						}
+					}
+					if !okBody {
+						g.fail("htmlEscapeString: case body not of the form html = <bytes var>")
+						continue
+					}
+					for _, e := range c.List {
+						r, ok := charLit(e)
+						if !ok || r > 255 {
+							g.fail("htmlEscapeString: case label is not a byte literal")
+							continue
+						}
+						ents = append(ents, ent{int(r), val})
+					}
 				}
+				return false
+			})
+		}
+		if !found {
+			g.fail("htmlEscapeString: switch not found")
+		}
+	})
+	pats := ""
+	if len(perr) == 0 {
+		m := map[string]string{}
+		for _, e := range ents {
+			if _, dup := m[fmt.Sprintf("%03d", e.c)]; dup {
+				pats = "(duplicate case label)" // cannot happen in code that compiles
 			}
-			return false
-		})
+			m[fmt.Sprintf("%03d", e.c)] = e.s
+		}
+		if pats == "" {
+			pats = canonMap(m)
+		}
 	}
-	if !found {
-		g.fail("htmlEscapeString: switch not found")
+	// evaluation: the compiled function on each of the 256 one-byte strings (the loop over the bytes of a
+	// longer string is the model's, tied by walk-events and the correspondence)
+	ev, err := g.goEval("soyhtml", []string{"bytes", "encoding/hex"}, `	m := map[string]string{}
+	esc := func(in string) (string, bool) {
+		var buf bytes.Buffer
+		if err := htmlEscapeString(&buf, in); err != nil {
+			return "", false
+		}
+		return buf.String(), true
+	}
+	allOK := true
+	for c := 0; c < 256; c++ {
+		in := string([]byte{byte(c)})
+		out, ok := esc(in)
+		if !ok {
+			allOK = false
+		} else if out != in {
+			m[hex.EncodeToString([]byte(in))] = hex.EncodeToString([]byte(out))
+		}
+	}
+	if allOK {
+		res["htmlEscapeString"] = m
+	}
+	e, ok := esc("")
+	res["htmlEscapeString.empty"] = ok && e == ""`)
+	evs, everr := "", ""
+	var evEnts []ent
+	if err != nil {
+		everr = err.Error()
+	} else {
+		var raw map[string]string
+		var emptyOK bool
+		if ev.get("htmlEscapeString", &raw) && ev.get("htmlEscapeString.empty", &emptyOK) && emptyOK {
+			m := map[string]string{}
+			for hk, hv := range raw {
+				k, err1 := hexDecode(hk)
+				v, err2 := hexDecode(hv)
+				if err1 != nil || err2 != nil || len(k) != 1 {
+					everr = "malformed evaluation result"
+					break
+				}
+				m[fmt.Sprintf("%03d", k[0])] = v
+				evEnts = append(evEnts, ent{int(k[0]), v})
+			}
+			if everr == "" {
+				evs = canonMap(m)
+			}
+		} else {
+			everr = "no result for htmlEscapeString"
+		}
+	}
+	switch g.choose("soyhtml/exec.go htmlEscapeString", pats, strings.Join(perr, "; "), evs, everr) {
+	case routeEval:
+		ents = evEnts
+	case routeNone:
+		ents = nil
 	}
 	sort.Slice(ents, func(i, j int) bool { return ents[i].c < ents[j].c })
 	g.p("(* soyhtml/exec.go htmlEscapeString: byte -> replacement *)\n")
@@ -132,26 +206,39 @@ func (g *gen) directiveTable(rel, varName string) []directive {
 				fields[order[i]] = fe
 			}
 		}
+		for f := range fields {
+			if f != "Apply" && f != "ValidArgLengths" && f != "CancelAutoescape" {
+				g.fail("%s: %s[%q] has a field %s the translator does not know", rel, varName, name, f)
+			}
+		}
+		if len(v.Elts) > len(order) {
+			g.fail("%s: %s[%q] has more than %d fields", rel, varName, name, len(order))
+		}
 		if id, ok := fields["Apply"].(*ast.Ident); ok {
 			if id.Name == "nil" {
 				d.NilApply = true
+			} else if g.funcDecl(rel, id.Name) == nil {
+				g.fail("%s: %s[%q] Apply is %s, which is not a function of the file", rel, varName, name, id.Name)
 			}
 			d.Fn = id.Name
 		} else if fields["Apply"] == nil {
 			d.NilApply = true
+			d.Fn = "nil" // an omitted field is the zero value: the same entry as an explicit nil
 		} else {
 			d.Fn = "<expr>"
 		}
 		if al, ok := fields["ValidArgLengths"].(*ast.CompositeLit); ok {
 			for _, e := range al.Elts {
-				if n, ok := intLit(e); ok {
+				if n, ok := intLit(e); ok && n >= 0 {
 					d.ArgLens = append(d.ArgLens, n)
 				} else {
 					g.fail("%s: %s[%q] arg length not an int literal", rel, varName, name)
 				}
 			}
+		} else if fields["ValidArgLengths"] != nil && !isIdent(fields["ValidArgLengths"], "nil") {
+			g.fail("%s: %s[%q] ValidArgLengths is not a []int literal", rel, varName, name)
 		}
-		if id, ok := fields["CancelAutoescape"].(*ast.Ident); ok {
+		if id, ok := fields["CancelAutoescape"].(*ast.Ident); ok && (id.Name == "true" || id.Name == "false") {
 			d.Cancel = id.Name == "true"
 		} else if fields["CancelAutoescape"] != nil {
 			g.fail("%s: %s[%q] CancelAutoescape not a literal", rel, varName, name)
@@ -163,7 +250,24 @@ func (g *gen) directiveTable(rel, varName string) []directive {
 }
 
 func (g *gen) htmlDirectives() {
-	ds := g.directiveTable("soyhtml/directives.go", "PrintDirectives")
+	var ds []directive
+	perr := g.silent(func() { ds = g.directiveTable("soyhtml/directives.go", "PrintDirectives") })
+	pats := ""
+	if len(perr) == 0 {
+		pats = canonDirectives(ds)
+	}
+	ev, everrs := g.evalSoyhtml()
+	evs, everr := "", evErr(everrs, "PrintDirectives")
+	evDs, ok := evalDirectives(ev)
+	if ok {
+		evs = canonDirectives(evDs)
+	}
+	switch g.choose("soyhtml/directives.go PrintDirectives", pats, strings.Join(perr, "; "), evs, everr) {
+	case routeEval:
+		ds = evDs
+	case routeNone:
+		ds = nil
+	}
 	g.p("(* soyhtml/directives.go PrintDirectives: (name, (arg lengths, (cancel, (nil Apply, Go function)))) *)\n")
 	g.p("Definition html_directives : list (bstr * (list N * (bool * (bool * bstr)))) := [\n")
 	for i, d := range ds {
@@ -177,7 +281,10 @@ func (g *gen) htmlDirectives() {
 	g.js["html_directives"] = ds
 }
 
-// autoescapeAttr translates the switch of parse.parseAutoescape.
+// autoescapeAttr: parse.parseAutoescape as a table attribute text -> mode, by pattern (the switch over
+// the attribute) and by evaluation (the compiled method on every string literal of parse.go and "",
+// a panic = rejected).  The codes of the ast.Autoescape* constants are read from the evaluation when
+// there is one (the pattern route assumes the declaration order of ast/node.go).
 func (g *gen) autoescapeAttr() {
 	fd := g.method("parse/parse.go", "tree", "parseAutoescape")
 	codes := map[string]int{"AutoescapeUnspecified": 0, "AutoescapeOn": 1, "AutoescapeOff": 2, "AutoescapeContextual": 3}
@@ -186,47 +293,116 @@ func (g *gen) autoescapeAttr() {
 		c int
 	}
 	var rows []row
-	found := false
-	if fd != nil {
-		ast.Inspect(fd.Body, func(n ast.Node) bool {
-			sw, ok := n.(*ast.SwitchStmt)
-			if !ok || found {
-				return true
-			}
-			found = true
-			for _, cc := range sw.Body.List {
-				c := cc.(*ast.CaseClause)
-				if c.List == nil {
-					continue
+	perr := g.silent(func() {
+		found := false
+		if fd != nil {
+			ast.Inspect(fd.Body, func(n ast.Node) bool {
+				sw, ok := n.(*ast.SwitchStmt)
+				if !ok || found {
+					return true
 				}
-				code := -1
-				if len(c.Body) == 1 {
-					if rs, ok := c.Body[0].(*ast.ReturnStmt); ok && len(rs.Results) == 1 {
-						if se, ok := rs.Results[0].(*ast.SelectorExpr); ok {
-							if v, ok := codes[se.Sel.Name]; ok {
-								code = v
+				found = true
+				// the tag must be the attribute itself: attrs["autoescape"], directly or through the init statement
+				tagOK := false
+				isAttr := func(e ast.Expr) bool {
+					ix, ok := e.(*ast.IndexExpr)
+					if !ok {
+						return false
+					}
+					k, ok := strLit(ix.Index)
+					return ok && k == "autoescape"
+				}
+				if sw.Tag != nil && isAttr(sw.Tag) {
+					tagOK = true
+				}
+				if as, ok := sw.Init.(*ast.AssignStmt); ok && len(as.Lhs) == 1 && len(as.Rhs) == 1 && isAttr(as.Rhs[0]) {
+					if id, ok := as.Lhs[0].(*ast.Ident); ok && sw.Tag != nil && isIdent(sw.Tag, id.Name) {
+						tagOK = true
+					}
+				}
+				if !tagOK {
+					g.fail("parseAutoescape: the switch is not over attrs[\"autoescape\"]")
+				}
+				for _, cc := range sw.Body.List {
+					c := cc.(*ast.CaseClause)
+					if c.List == nil {
+						continue
+					}
+					code := -1
+					if len(c.Body) == 1 {
+						if rs, ok := c.Body[0].(*ast.ReturnStmt); ok && len(rs.Results) == 1 {
+							if se, ok := rs.Results[0].(*ast.SelectorExpr); ok {
+								if v, ok := codes[se.Sel.Name]; ok {
+									code = v
+								}
 							}
 						}
 					}
-				}
-				if code < 0 {
-					g.fail("parseAutoescape: case does not return an ast.Autoescape constant")
-					continue
-				}
-				for _, e := range c.List {
-					s, ok := strLit(e)
-					if !ok {
-						g.fail("parseAutoescape: label not a string literal")
+					if code < 0 {
+						g.fail("parseAutoescape: case does not return an ast.Autoescape constant")
 						continue
 					}
-					rows = append(rows, row{s, code})
+					for _, e := range c.List {
+						s, ok := strLit(e)
+						if !ok {
+							g.fail("parseAutoescape: label not a string literal")
+							continue
+						}
+						rows = append(rows, row{s, code})
+					}
 				}
-			}
-			return false
-		})
+				return false
+			})
+		}
+		if !found {
+			g.fail("parseAutoescape: switch not found")
+		}
+	})
+	pats := ""
+	if len(perr) == 0 {
+		m := map[string]string{}
+		for _, r := range rows {
+			m[r.s] = fmt.Sprint(r.c)
+		}
+		pats = canonMap(m)
 	}
-	if !found {
-		g.fail("parseAutoescape: switch not found")
+	ev, everrs := g.evalParse()
+	evs, everr := "", evErr(everrs, "parseAutoescape")
+	var evRows []row
+	var raw, evCodes map[string]int
+	var absent int
+	if ev.get("parseAutoescape", &raw) && ev.get("parseAutoescape.codes", &evCodes) {
+		everr = ""
+		for name, want := range codes {
+			if got, ok := evCodes[name]; !ok || got != want {
+				everr = fmt.Sprintf("ast.%s is %d, the models are written with %d", name, got, want)
+			}
+		}
+		// an absent attribute must read as the empty text (the model looks the attribute up with a default of "")
+		if e, ok := raw[""]; !ev.get("parseAutoescape.absent", &absent) || !ok || e != absent {
+			everr = "an absent autoescape attribute is not treated as the empty text"
+		}
+		if everr == "" {
+			m := map[string]string{}
+			for hk, c := range raw {
+				k, err := hexDecode(hk)
+				if err != nil {
+					everr = "malformed evaluation result"
+					break
+				}
+				m[k] = fmt.Sprint(c)
+				evRows = append(evRows, row{k, c})
+			}
+			if everr == "" {
+				evs = canonMap(m)
+			}
+		}
+	}
+	switch g.choose("parse/parse.go parseAutoescape", pats, strings.Join(perr, "; "), evs, everr) {
+	case routeEval:
+		rows = evRows
+	case routeNone:
+		rows = nil
 	}
 	sort.Slice(rows, func(i, j int) bool { return rows[i].s < rows[j].s })
 	g.p("(* parse/parse.go parseAutoescape: attribute text -> 0 unspecified | 1 on | 2 off | 3 contextual *)\n")
